@@ -98,6 +98,10 @@ both('lat_misc', ['relation inp(i32, i32)', 'lattice mx(i32)', 'lattice best(i32
       'big(*x) <-- best(x, v), if v.is_some()', 'seen(x, y) <-- pr(x, y, _)', 'mx(x + 1) <-- mx(x), if *x < 10'], tags=['lattice'])
 P('lat_allbound', ['relation inp(i32, i32)', 'lattice best(i32, i32)', 'relation probe(i32, i32)', 'relation hit(i32, i32)'],
   ['best(x, *y) <-- inp(x, y)', 'hit(x, v) <-- probe(x, v), best(x, v)'], tags=['lattice', 'lat_allbound'])
+P('lat_neg', ['relation inp(i32, i32)', 'lattice best(i32, i32)', 'relation cand(i32, i32)', 'relation miss(i32, i32)', 'relation n_exact(i32, usize)'],
+  ['best(x, *y) <-- inp(x, y)', 'miss(x, v) <-- cand(x, v), !best(x, v)', 'n_exact(x, c) <-- cand(x, v), agg c = count() in best(x, v)'], tags=['lattice', 'neg', 'agg', 'lat_allbound'])
+both('lat_valkey', ['relation inp(i32, i32)', 'relation step(i32)', 'lattice best(i32, i32)', 'relation probev(i32)', 'relation byval(i32, i32)'],
+     ['best(x, *y) <-- inp(x, y)', 'best(x, v + 1) <-- best(x, v), step(v)', 'byval(x, v) <-- probev(v), best(x, v)'], tags=['lattice', 'lat_valkey'])
 P('lat_agg', ['relation inp(i32, i32)', 'lattice best(i32, i32)', 'relation n(usize)', 'relation top(i32)'],
   ['best(x, *y) <-- inp(x, y)', 'n(c) <-- agg c = count() in best(_, _)', 'top(m) <-- agg m = max(v) in best(_, v)'], tags=['lattice', 'agg'])
 P('lat_agg_par', ['relation inp(i32, i32)', 'lattice best(i32, i32)', 'relation n(usize)'],
